@@ -62,6 +62,9 @@ NONLINEAR = {
     'mixed2d': (4, 2, lambda a, x: a[0] + a[1] * x[0] + a[2] * anp.exp(-a[3] * x[1]),
                 lambda n: N('add', N('add', V(1), N('mul', V(2), V(n + 1))), N('mul', V(3), N('exp', N('neg', N('mul', V(4), V(n + 2)))))),
                 [0.5, 0.8, 1.4, 0.6], (0.3, 4.0)),
+    # both components of a point enter one exponent: d^2 chi^2 / dx0 dx1 != 0 (the x-x block of the TLS Hessian is not diagonal)
+    'prod2d': (2, 2, lambda a, x: a[0] * anp.exp(-a[1] * x[0] * x[1]),
+               lambda n: N('mul', V(1), N('exp', N('neg', N('mul', V(2), N('mul', V(n + 1), V(n + 2)))))), [1.5, 0.3], (0.4, 2.0)),
     'power': (2, 1, lambda a, x: a[0] * x ** a[1],
               lambda n: N('mul', V(1), N('pow', V(n + 1), V(2))), [1.3, 0.7], (0.5, 5.0)),
 }
